@@ -163,7 +163,19 @@ func bodyClass(rs *ast.RangeStmt, next ast.Stmt) string {
 							case "sort.Strings", "sort.Ints", "sort.Float64s":
 								return "collect-sorted"
 							}
-							return "collect-sorted-by:" + exprText(c2.Fun)
+							// a comparison given as a closure that only calls a named function is classified by
+							// that function (its total-order proof is per function); anything else is "inline"
+							cmp := "inline"
+							if len(c2.Args) == 2 {
+								if fl, ok := c2.Args[1].(*ast.FuncLit); ok && len(fl.Body.List) == 1 {
+									if rs, ok := fl.Body.List[0].(*ast.ReturnStmt); ok && len(rs.Results) == 1 {
+										if ce, ok := rs.Results[0].(*ast.CallExpr); ok {
+											cmp = exprText(ce.Fun)
+										}
+									}
+								}
+							}
+							return "collect-sorted-by:" + exprText(c2.Fun) + ":" + cmp
 						}
 					}
 					return "collect"
